@@ -302,10 +302,14 @@ class HttpParser:
             )
 
     def _parse_headers(self, data):
-        if data == b'\r\n':
+        if data[:2] == b'\r\n':
+            # empty header section: whatever follows the empty line is body,
+            # delimited (without Content-Length) by the end of the connection
+            rest = data[2:]
             self.__on_headers_complete = True
-            self._buf = []
-            return 0
+            self._clen_rest = maxsize
+            self._buf = [rest] if rest else []
+            return len(rest)
         idx = data.find(b'\r\n\r\n')
         if idx < 0:  # we don't have all headers
             if self._status_code == 204 and data == b'\r\n':
